@@ -36,6 +36,9 @@ type c04Op struct {
 	Kind   string   `json:"kind"` // cmd | cmds | cfgs | acq
 	Args   []string `json:"args"`
 	Target string   `json:"target,omitempty"`
+	// Leaves: the last line of the operation is the de-escalate command of the level it runs at, so
+	// the device leaves that level behind the driver's back
+	Leaves bool `json:"leaves,omitempty"`
 }
 
 type c04Case struct {
@@ -155,6 +158,27 @@ func genC04(r *sim.Rng) *c04Case {
 				t = "no-such-level"
 			}
 			c.Ops = append(c.Ops, c04Op{Kind: "acq", Target: t})
+		}
+	}
+	// user lines that change the device's mode ("end", "exit" as the last configuration line; the
+	// default level's de-escalate command sent as a command)
+	for i := range c.Ops {
+		o := &c.Ops[i]
+		switch o.Kind {
+		case "cfgs":
+			t := o.Target
+			if t == "" {
+				t = "configuration"
+			}
+			if l := levelByName(c.Levels, t); l != nil && l.Previous != "" && r.Chance(1, 3) {
+				o.Args = append(o.Args, l.Deesc)
+				o.Leaves = true
+			}
+		case "cmd":
+			if l := levelByName(c.Levels, c.Default); l != nil && l.Previous != "" && r.Chance(1, 8) {
+				o.Args = []string{l.Deesc}
+				o.Leaves = true
+			}
 		}
 	}
 	switch r.Intn(3) {
@@ -279,6 +303,7 @@ func runC04Case(id string, c *c04Case) {
 		tr.Mark('C')
 		t0 := time.Now()
 		modeBefore := dev.Mode
+		cachedBefore := d.CurrentPriv
 		nlines := len(dev.CommandLines())
 		var e error
 		var res []string
@@ -397,10 +422,22 @@ func runC04Case(id string, c *c04Case) {
 				ok = false
 			}
 		}
+		finalWant := target
+		if o.Leaves {
+			finalWant = tl.Previous
+		}
 		if !ok {
 			cs.Oracle = fmt.Sprintf("op %d (%s -> %s from %s): device received %v, want %v", i, o.Kind, target, modeBefore, newLines, want)
 			cs.Sig = "C04:lines"
-		} else if dev.Mode != target {
+			if (o.Kind == "cmd" || o.Kind == "cmds") && cachedBefore == c.Default && modeBefore != c.Default {
+				// known finding: SendCommand(s) trusts the cached level; a user line that changed the
+				// device's mode since (here: the de-escalate command sent as a command) goes unnoticed
+				cs.Sig = "C04:command-at-stale-cached-level"
+			}
+		} else if dev.Mode != finalWant {
+			cs.Oracle = fmt.Sprintf("op %d: device ended in %s, want %s", i, dev.Mode, finalWant)
+			cs.Sig = "C04:final-mode"
+		} else if false && dev.Mode != target {
 			cs.Oracle = fmt.Sprintf("op %d: device ended in %s, want %s", i, dev.Mode, target)
 			cs.Sig = "C04:final-mode"
 		}
